@@ -355,6 +355,8 @@ def purelist_depth(d):
 
 def minmax_depth(d):
     c = d["class"]
+    if is_string_node(d):
+        return (1, 1)      # strings are leaves for depth counting
     if c == "NumpyArray":
         return (d["array"].ndim, d["array"].ndim)
     if c == "EmptyArray":
